@@ -464,7 +464,7 @@ def run(chk):
     ]
     chk.prove("Props/C37.v", ["Props/C37.vo", "MacroNS/ReaderMacrosEncode.vo"], [macro_readers.translate])
     thorough = chk.tier == "thorough"
-    n_cases = 8000 if thorough else 700
+    n_cases = 6000 if thorough else 700
     chk.rule = ("case = 1-3 streams (own HyReader, own module) of 2-8 top-level chunks (defreader returning a value or "
                 "None / a list display with 0-3 reader-macro uses / a bare use / require :readers [names] or * from two "
                 "modules on disk, sometimes a missing name / a plain form) over 5 names, with a schedule (pipeline, "
